@@ -14,8 +14,18 @@ import time
 from common import ROOT, WORK, REPLAYS, ensure_dir, log, run, seed
 
 KANI_DIR = os.path.join(ROOT, "kani")
-TARGET = os.path.join(WORK, "kani-target")
+BASE_TARGET = os.path.join(WORK, "kani-target")      # pre-built by setup.sh (dependencies only)
 PLAYBACK_TARGET = os.path.join(WORK, "kani-playback-target")
+
+
+def target_dir(prop, tier):
+    """One target dir per (property, tier) so that concurrent checks never share build output;
+    seeded from the pre-built base (dependencies) when that exists."""
+    d = os.path.join(WORK, f"kt-{prop}-{tier}")
+    if not os.path.isdir(d) and os.path.isdir(BASE_TARGET):
+        import subprocess
+        subprocess.call(["cp", "-a", BASE_TARGET, d])
+    return d
 PLAYBACK_FILE = os.path.join(KANI_DIR, "src", "playback_gen.rs")
 PLAYBACK_STUB = "// overwritten by ./check during counterexample replay; intentionally empty.\n"
 
@@ -56,10 +66,10 @@ def _features(prop, tier, extra=()):
 def codegen(prop, tier):
     """Compile /repo + harness crate with kani-compiler; returns (harness names, log tail)."""
     ensure_dir(WORK)
-    # make sure a stale playback file never participates
-    with open(PLAYBACK_FILE, "w") as f:
-        f.write(PLAYBACK_STUB)
-    os.utime(os.path.join(KANI_DIR, "src", "lib.rs"))
+    if not os.path.exists(PLAYBACK_FILE):
+        with open(PLAYBACK_FILE, "w") as f:
+            f.write(PLAYBACK_STUB)
+    TARGET = target_dir(prop, tier)
     cmd = ["cargo", "kani", "--target-dir", TARGET, "--features", _features(prop, tier)] + BASE_FLAGS + ["--only-codegen"]
     t0 = time.time()
     rc, out = run(cmd, cwd=KANI_DIR, timeout=1800, log_path=os.path.join(WORK, f"{prop}-codegen.log"))
@@ -73,7 +83,7 @@ def codegen(prop, tier):
     newest = max(metas, key=os.path.getmtime)
     md = json.load(open(newest))
     names = sorted(h["pretty_name"] for h in md["proof_harnesses"])
-    # drop stale output dirs of other feature sets to keep disk use flat
+    # drop stale output dirs (older builds of this property/tier) to keep disk use flat
     keep = os.path.dirname(os.path.dirname(newest))
     for d in glob.glob(os.path.join(os.path.dirname(keep), "*")):
         if d != keep:
@@ -109,7 +119,7 @@ def parse_log(res, out, rc):
         res.status = "ok"
     elif "VERIFICATION:- FAILED" in out and res.failed:
         res.status = "failed"
-    elif re.search(r"std::bad_alloc|out of memory|Status: ERROR|Killed|SIGKILL|memory exhausted|SIGABRT", out):
+    elif re.search(r"std::bad_alloc|out of memory|Status: ERROR|Killed|SIGKILL|memory exhausted|SIGABRT|CBMC failed with status", out, re.I):
         res.status = "oom"
         res.detail = "cbmc ran out of memory / aborted"
     elif "VERIFICATION:- FAILED" in out:
@@ -125,7 +135,7 @@ def run_harness(prop, tier, name, timeout_s, mem_gb, solver=None):
     res = HarnessResult(name)
     logdir = ensure_dir(os.path.join(WORK, "logs", prop))
     res.log = os.path.join(logdir, name.replace("::", "__") + ".log")
-    cmd = ["cargo", "kani", "--target-dir", TARGET, "--features", _features(prop, tier)] + BASE_FLAGS + \
+    cmd = ["cargo", "kani", "--target-dir", target_dir(prop, tier), "--features", _features(prop, tier)] + BASE_FLAGS + \
           ["--harness", name, "--exact"]
     if solver:
         cmd += ["--solver", solver]
@@ -158,7 +168,7 @@ def playback(prop, tier, name, timeout_s, mem_gb):
     """Ask Kani for concrete values of the counterexamples, run them natively against /repo.
 
     Returns (replay_path, [(test_name, panicked, message)]) or (None, reason)."""
-    cmd = ["cargo", "kani", "--target-dir", TARGET, "--features", _features(prop, tier)] + BASE_FLAGS + \
+    cmd = ["cargo", "kani", "--target-dir", target_dir(prop, tier), "--features", _features(prop, tier)] + BASE_FLAGS + \
           ["--harness", name, "--exact", "-Z", "concrete-playback", "--concrete-playback=print"]
     rc, out = run(cmd, cwd=KANI_DIR, timeout=timeout_s, mem_kb=mem_gb * 1024 * 1024)
     tests, seen = [], set()
@@ -181,7 +191,11 @@ def playback(prop, tier, name, timeout_s, mem_gb):
 
 
 def run_playback_file(path, features, release=False, timeout_s=900):
+    import fcntl
     body = open(path).read()
+    ensure_dir(WORK)
+    lock = open(os.path.join(WORK, "playback.lock"), "w")
+    fcntl.flock(lock, fcntl.LOCK_EX)      # playback_gen.rs is one file: serialise replays
     with open(PLAYBACK_FILE, "w") as f:
         f.write(body)
     try:
@@ -193,6 +207,8 @@ def run_playback_file(path, features, release=False, timeout_s=900):
     finally:
         with open(PLAYBACK_FILE, "w") as f:
             f.write(PLAYBACK_STUB)
+        fcntl.flock(lock, fcntl.LOCK_UN)
+        lock.close()
     if rc is None:
         return [("<all>", True, "native replay did not terminate within %ds" % timeout_s)]
     res = []
@@ -230,7 +246,7 @@ def decide(v, prop, tier, opts):
     if not names:
         v.inconcl("no harnesses selected")
         return
-    timeout_s = opts.get("timeout_s", 300 if tier == "quick" else 2400)
+    timeout_s = opts.get("timeout_s", 600 if tier == "quick" else 2400)
     mem_gb = opts.get("mem_gb", 12)
     jobs = opts.get("jobs", 14)
     log(f"[{prop}] engine K: {len(names)} harnesses, codegen {cg_s:.0f}s, timeout {timeout_s}s/harness, {jobs} jobs")
